@@ -7,14 +7,15 @@ import (
 )
 
 // C13: case forms (see coq/Extract/RunC13.v)
-//   (1 bytes)              parsePSIData; oracle: equals the independent reference decoder, field for field
-//   (7 bytes)              parsePSIData on checksum-repaired mutations (outside the property's domain: the oracle
-//                          only demands agreement when the reference decoder accepts the unit)
-//   (2 psidata)            writePSIData; oracle: byte for byte the reference encoding (PAT / PMT)
-//   (3 psidata pid packet) PSIData.toData
-//   (4 section)            calcPSISectionLength
-//   (5 pmtdata)            calcPMTSectionLength
-//   (6 bytes)              parse, then write the result back
+//
+//	(1 bytes)              parsePSIData; oracle: equals the independent reference decoder, field for field
+//	(7 bytes)              parsePSIData on checksum-repaired mutations (outside the property's domain: the oracle
+//	                       only demands agreement when the reference decoder accepts the unit)
+//	(2 psidata)            writePSIData; oracle: byte for byte the reference encoding (PAT / PMT)
+//	(3 psidata pid packet) PSIData.toData
+//	(4 section)            calcPSISectionLength
+//	(5 pmtdata)            calcPMTSectionLength
+//	(6 bytes)              parse, then write the result back
 type c13 struct{}
 
 func init() { props["C13"] = c13{} }
